@@ -17,7 +17,7 @@ class KickApply:
         A.require(not s.noncanonical_loops, "KickMap::apply: non-canonical loop")
         self.branches = {}
         for a in s.accesses:
-            kd = [(g, pol) for g, pol in a.guards if isinstance(g, dict) and g.get("k") == "BinaryOperator"
+            kd = [(g, pol) for g, pol in I.plain_guards(a.guards) if isinstance(g, dict) and g.get("k") == "BinaryOperator"
                   and A.this_field(g["c"][0]) == "_kickdirection"]
             if not kd:
                 continue
@@ -72,7 +72,7 @@ def source_guard(ka, b):
     if rest.has(nl[0].sym):
         return False, "source index is not n*N*N + in-bunch part: %s" % Sx
     sc = ka.scan
-    for g, pol in din.guards:
+    for g, pol in I.plain_guards(din.guards):
         if not isinstance(g, dict) or g.get("k") in ("SwitchCase", "Catch") or not pol:
             continue
         gn = A.strip(g)
